@@ -65,7 +65,18 @@ LEVEL_TEXT = (
     "_best_single_match / quality return the first range in list order whose _value_matches(offer, range) holds "
     "(return inside the scan, search loop with break, or next() over a generator; otherwise decided by following the "
     "function on three ranges for each of the 8 subsets of them that match); "
-    "every _specificity ranks wildcards below concrete values; parse_accept_header only appends. (R17.4) every "
+    "every _specificity ranks wildcards below concrete values (ladder */* < type/* < type/subtype < type/subtype;param, "
+    "'*' < concrete) and orders range shapes by inclusion of what they match: per Accept class the set of concrete offers "
+    "matched by each range shape - {*/*, type/*, type/subtype} x {no, one, two parameters} for media ranges; '*', a concrete "
+    "value and (languages) a region tag for the other families - is computed by following the class's own _value_matches over "
+    "a family of offers (a cell that cannot be evaluated from the source, e.g. behind codecs.lookup, takes the documented "
+    "matching), and whenever a shape r1 matches a non-empty strict subset of what r2 matches, _specificity(r1) > "
+    "_specificity(r2) strictly (never a tie: the sort and the first-match exit would let r2's q shadow r1's). Pairs checked "
+    "on today's tree: type/subtype[;p[;p]] above type/*[;p[;p]] and above */*[;p[;p]], type/*[;p[;p]] above */*[;p[;p]] "
+    "(27 media-range pairs, parameters on either side in every combination, e.g. text/html above text/*;format=flowed), "
+    "concrete above '*' for Accept, LanguageAccept ('en', 'en-US') and CharsetAccept; shapes that match the same or disjoint "
+    "sets of offers (text/* vs text/*;p, text/html vs text/html;level=1 beyond the ladder, en vs en-US) are not ordered by "
+    "this clause; parse_accept_header only appends. (R17.4) every "
     "_value_matches accepts the wildcard range(s) of its family and compares both operands under the same normaliser "
     "(scenario tables per family, each scenario followed statement by statement through the method and the helpers it "
     "calls; equality comparisons with locals expanded, also inside a helper that receives offer and range). NOT decided: "
@@ -168,7 +179,7 @@ def run(ctx: Ctx) -> None:
     folder = Folder(ctx.repo)
     ctx.rule("R17.1", "every quality appended by parse_accept_header is 1 (no q parameter) or float() of a text accepted by a dominating pattern test whose language is plain ASCII decimals, and is dropped on every path exactly when outside [0,1]")
     ctx.rule("R17.2", "Accept.best_match replaces its choice exactly when a range matched, quality > 0 and (quality > best, or equal quality and greater specificity); state moves with the choice; LanguageAccept stages its fallbacks through it with q kept")
-    ctx.rule("R17.3", "the Accept list is built by one stable sort, specificity major, quality minor, client order on ties; lookups return the first matching range in list order; _specificity ranks wildcards lowest")
+    ctx.rule("R17.3", "the Accept list is built by one stable sort, specificity major, quality minor, client order on ties; lookups return the first matching range in list order; _specificity ranks wildcards lowest and never ranks a range at or above one whose matched offers are a strict subset of its own")
     ctx.rule("R17.4", "every _value_matches accepts its family's wildcard range(s) and compares offer and range under the same normaliser")
     accept, fam = _family(ctx)
     ctx.floor("R17.1", "Accept classes", len(fam), 4)
@@ -1720,6 +1731,7 @@ def _r173(ctx: Ctx, folder: Folder, accept: ClassInfo, fam: list[ClassInfo]) -> 
                 ok = False
             ctx.ob("R17.3", f"{fi.qualname} ({kind} ranges): {s1!r} is more specific than {s0!r}", ok, f"specificity {v1!r} vs {v0!r}", fi, fi.node, f"{fi.qualname} {kind} {s0} < {s1}")
     ctx.floor("R17.3", "_specificity implementations", len({fi.fq for fi, _ in impls.values()}), 2)
+    _specificity_respects_inclusion(ctx, folder, fam)
 
     # ---- the sort in __init__ ------------------------------------------------------
     init = accept.methods.get("__init__")
@@ -1727,6 +1739,114 @@ def _r173(ctx: Ctx, folder: Folder, accept: ClassInfo, fam: list[ClassInfo]) -> 
         raise AnchorMissing("Accept.__init__ missing")
     ctx.saw(init)
     _arbitrate(ctx, lambda: _init_sort(ctx, folder, accept, init), lambda: _init_model(ctx, folder, accept, init))
+
+
+def _shape_family(kind: str) -> tuple[list[str], list[str]]:
+    """(client range shapes, concrete offers) of a header family: every combination of wildcard / concrete components,
+    for media ranges with no, one and two parameters (written `;p` and `; p`, as a client and as the parser spell them)."""
+    if kind == "mime":
+        params = ["", ";format=flowed", "; format=flowed; level=1"]
+        ranges = [ts + p for ts in ("*/*", "text/*", "text/html") for p in params]
+        offers = ["text/html", "text/plain", "image/png", "text/html;format=flowed", "text/plain;format=flowed", "image/png;format=flowed", "text/html;format=flowed;level=1"]
+        return ranges, offers
+    if kind == "lang":
+        return ["*", "en", "en-US"], ["en", "en-US", "de"]
+    if kind == "charset":
+        return ["*", "utf-8"], ["utf-8", "iso-8859-1"]
+    return ["*", "gzip"], ["gzip", "br"]
+
+
+def _documented_match(kind: str, rng: str, offer: str) -> bool:
+    """the documented matching of a range shape (used for a cell of the range x offer table that cannot be evaluated from
+    the source, e.g. behind codecs.lookup): a wildcard component matches anything, concrete components match the equal
+    case-folded text, media-range parameters count only when type and subtype are both concrete."""
+    import re
+
+    if kind != "mime":
+        if rng == "*":
+            return True
+        if kind == "lang":
+            return re.split(r"[_-]", rng.lower()) == re.split(r"[_-]", offer.lower())
+        return rng.lower() == offer.lower()
+
+    def parts(s: str) -> tuple[str, str, list[str]]:
+        p = re.split(r"/|(?:\s*;\s*)", s.lower())
+        return p[0], p[1], sorted(p[2:])
+
+    (rt, rs, rp), (ot, os_, op) = parts(rng), parts(offer)
+    if rt == "*":
+        return rs == "*"
+    return rt == ot and (rs == "*" or (rs == os_ and rp == op))
+
+
+def _specificity_respects_inclusion(ctx: Ctx, folder: Folder, fam: list[ClassInfo]) -> None:
+    """The first-match lookups and the tie-break of best_match read `most specific` off the _specificity key alone: a
+    range r2 that matches everything a range r1 matches, and more, must never rank above or equal to r1 - otherwise
+    r2's q shadows r1's for the offers r1 was written for.  Per Accept class: the matched set of every range shape over
+    a family of concrete offers is computed by following the class's own _value_matches, and for every pair with
+    M(r1) a non-empty strict subset of M(r2) the class's _specificity must give r1 the strictly greater key."""
+    repo = ctx.repo
+    done: set[tuple[str, str]] = set()
+    n_pairs = 0
+    n_shapes = 0
+    for c in fam:
+        _o, sp = repo.lookup(c, "_specificity")
+        _o2, vm = repo.lookup(c, "_value_matches")
+        if not isinstance(sp, FuncInfo) or not isinstance(vm, FuncInfo):
+            raise AnalysisError(f"{c.name}: _specificity / _value_matches do not resolve to methods")
+        kind = _kind(ctx, c)
+        if (sp.fq, vm.fq) in done:
+            continue
+        done.add((sp.fq, vm.fq))
+        if len(sp.params) != 2 or len(vm.params) != 3:
+            raise AnalysisError(f"{c.name}: expected _specificity(self, range) and _value_matches(self, offer, range)")
+        ranges, offers = _shape_family(kind)
+        ladder = _spec_samples("mime" if kind == "mime" else "generic")
+        spec: dict[str, t.Any] = {}
+        matched: dict[str, frozenset[str]] = {}
+        by_doc = 0
+        for r in ranges:
+            rv, raises, _fe = _eval_method(ctx, folder, sp, {sp.params[1]: r})
+            if raises or len(rv) != 1 or rv[0] is UNK:
+                raise AnalysisError(f"{sp.qualname}: cannot evaluate the specificity of {r!r}")
+            spec[r] = tuple(rv[0]) if isinstance(rv[0], list) else rv[0]
+            hit = set()
+            for o in offers:
+                mv, mraises, mfe = _eval_method(ctx, folder, vm, {vm.params[1]: o, vm.params[2]: r})
+                truths: set[t.Any] = set()
+                for v in mv:
+                    try:
+                        truths.add(UNK if v is UNK else bool(v))
+                    except Exception:
+                        truths.add(UNK)
+                if mraises or mfe.unknown_tests or len(truths) != 1 or UNK in truths:
+                    by_doc += 1
+                    yes = _documented_match(kind, r, o)
+                else:
+                    yes = truths == {True}
+                if yes:
+                    hit.add(o)
+            matched[r] = frozenset(hit)
+            n_shapes += 1
+        for r1 in ranges:
+            for r2 in ranges:
+                if not matched[r1] or not matched[r1] < matched[r2]:
+                    continue
+                if r1 in ladder and r2 in ladder and ladder.index(r1) == ladder.index(r2) + 1:
+                    continue  # this pair is a step of the ladder above (same _specificity implementation)
+                n_pairs += 1
+                v1, v2 = spec[r1], spec[r2]
+                try:
+                    ok = bool(v1 > v2)
+                except TypeError:
+                    ok = False
+                extra = sorted(matched[r2] - matched[r1])
+                ctx.ob("R17.3", f"{sp.qualname} ({kind} ranges of {c.name}): {r1!r} is more specific than {r2!r}, which matches every offer {r1!r} matches and others",
+                       ok, f"specificity {v1!r} vs {v2!r}; {r1!r} matches {sorted(matched[r1])}, {r2!r} matches these and {extra[:3]}{' ...' if len(extra) > 3 else ''}"
+                       + (f" ({by_doc} cell(s) of the {c.name} range x offer table taken from the documented matching)" if by_doc else ""),
+                       sp, sp.node, f"{sp.qualname} {kind} subsumed {r2} < {r1}")
+    ctx.floor("R17.3", "range shapes with a matched set", n_shapes, 12)
+    ctx.floor("R17.3", "range pairs ordered by inclusion of their matched sets", n_pairs, 4)
 
 
 def _init_model(ctx: Ctx, folder: Folder, accept: ClassInfo, init: FuncInfo) -> str | None:
